@@ -39,6 +39,9 @@ static int nx_horizon = 20;		/* seconds an operation may take */
 static char nx_errpath[512];
 static const char *nx_viol_slug = "explore";
 static int nx_trace_every;		/* emit every n-th leaf as a TRACE line for conformance replay */
+static void (*nx_pre_state)(void);	/* model update at a choice point, run before state matching and before nx_at_state() */
+static void (*nx_op_effect)(int k);	/* harness-side effect of operation k (outside-world events), before its bytes are fed */
+static int nx_exited;			/* the editor has returned from nv_main (seen by probes and nx_at_exit) */
 static const char *(*nx_hist_name)(int i);	/* names of the outcome histogram classes */
 static char nx_last_op_bytes[4096];
 static int nx_last_op_len;
@@ -134,6 +137,8 @@ static void nx_take(int k)
 	char buf[4096];
 	int n = nx_op_bytes(k, buf, sizeof(buf));
 	nx_hist[nx_depth++] = k;
+	if (nx_op_effect)
+		nx_op_effect(k);
 	memcpy(nx_last_op_bytes, buf, n);
 	nx_last_op_len = n;
 	nvx_feed(buf, n);
@@ -188,7 +193,7 @@ static int nx_twin(const char *input, int len, void (*fn)(void))
 
 static void nx_choice(void)
 {
-	int k, nops, remaining;
+	int k, nops, remaining, matched = 0;
 	unsigned long long h;
 	alarm(0);
 	if (nx_probe) {			/* a twin reached its next choice point: evaluate and vanish */
@@ -204,6 +209,16 @@ static void nx_choice(void)
 	}
 	if (nx_shard_level < 0 || nx_depth > nx_shard_level || nx_shard_mod == 0)
 		__sync_fetch_and_add(&nx_sh->states, 1);
+	if (nx_pre_state)		/* bring the reference model up to date (cheap), before state matching */
+		nx_pre_state();
+	if (nx_replay_n < 0 && nx_bound - nx_depth > 0) {
+		h = nx_state_hash();
+		if (h && nx_visited(h, nx_bound - nx_depth)) {
+			__sync_fetch_and_add(&nx_sh->pruned, 1);
+			_exit(0);
+		}
+		matched = 1;
+	}
 	nx_at_state();
 	if (nx_probe)			/* nx_at_state() started a twin and this is it: go back into the editor */
 		return;
@@ -222,10 +237,12 @@ static void nx_choice(void)
 		nx_do_leaf();
 		return;
 	}
-	h = nx_state_hash();
-	if (h && nx_visited(h, remaining)) {
-		__sync_fetch_and_add(&nx_sh->pruned, 1);
-		_exit(0);
+	if (!matched) {
+		h = nx_state_hash();
+		if (h && nx_visited(h, remaining)) {
+			__sync_fetch_and_add(&nx_sh->pruned, 1);
+			_exit(0);
+		}
 	}
 	nops = nx_nops();
 	for (k = 0; k < nops; k++) {
@@ -334,6 +351,7 @@ static void nx_run(int argc_ed, char **argv_ed)
 		nx_in_leaf = 0;
 		nv_main(argc_ed, argv_ed);
 		alarm(0);
+		nx_exited = 1;
 		if (!nx_probe) {
 			__sync_fetch_and_add(&nx_sh->exits, 1);
 			nx_at_exit();
